@@ -199,8 +199,28 @@ func (c10) RunUnit(t core.Tier, u int, r *core.Reporter) {
 			}
 			for _, p := range in {
 				// (b) constants: the pair's arguments substituted as literals
+				// (evaluated over the whole store: a constant must have the
+				// same value in every row of every chunk)
 				cexpr := substKV(pr.e, p.K, p.V)
-				run(c10Case{Probe: cexpr, Form: "field", Store: []store.Pair{p}, Mode: cfg.mode, B: cfg.b})
+				run(c10Case{Probe: cexpr, Form: "field", Store: in, Mode: cfg.mode, B: cfg.b})
+			}
+			if len(in) > 1 {
+				// (b') half constant: only the key, or only the value, of one pair substituted
+				p := in[len(in)/2]
+				for _, half := range []*ref.Expr{substHalf(pr.e, p.K, "", true), substHalf(pr.e, "", p.V, false)} {
+					if _, err := json.Marshal(half); err != nil || half.Render() == pr.e.Render() {
+						continue
+					}
+					var dom []store.Pair
+					for _, q := range in {
+						if _, err := ref.Eval(half, &ref.Env{Key: q.K, Value: q.V}); err == nil {
+							dom = append(dom, q)
+						}
+					}
+					if len(dom) > 0 {
+						run(c10Case{Probe: half, Form: "field", Store: dom, Mode: cfg.mode, B: cfg.b})
+					}
+				}
 			}
 			// (c) WHERE outcome
 			if len(in) > 0 {
@@ -243,6 +263,22 @@ func substKV(e *ref.Expr, k, v string) *ref.Expr {
 	c.A = make([]*ref.Expr, len(e.A))
 	for i, a := range e.A {
 		c.A[i] = substKV(a, k, v)
+	}
+	return &c
+}
+
+// substHalf replaces only key (keyOnly) or only value by a text literal.
+func substHalf(e *ref.Expr, k, v string, keyOnly bool) *ref.Expr {
+	switch {
+	case e.K == "key" && keyOnly:
+		return ref.S(k)
+	case e.K == "value" && !keyOnly:
+		return ref.S(v)
+	}
+	c := *e
+	c.A = make([]*ref.Expr, len(e.A))
+	for i, a := range e.A {
+		c.A[i] = substHalf(a, k, v, keyOnly)
 	}
 	return &c
 }
